@@ -17,7 +17,8 @@ import (
 // type parameter.
 //
 //	tparam K V A      K ::= int | str | type      the parameter's type: Integer, String or Type
-//	                  V ::= - | (i N) | (s xHEX) | int | str | bool | any     the value given for it (a type name when K = type)
+//	                  V ::= - | u | (i N) | (s xHEX) | int | str | bool | any     the value given for it (a type name when K = type;
+//	                                                - = not given, u = undef given explicitly: known finding C17-tparam-explicit-undef)
 //	                  A ::= integer                the value of the required attribute `a`
 //
 //	type T = Object[{type_parameters => {p => <K>}, attributes => {a => Integer, p => {type => Optional[<K>], value => undef}}}]
@@ -46,6 +47,8 @@ func execTParam(c px.Context, args []sx.Sexp) core.Result {
 		if v := args[1]; !v.IsList {
 			switch v.Atom {
 			case "-":
+			case "u":
+				pv, vt = px.Undef, "undef" // the parameter's attribute given its default explicitly
 			case "int", "str", "bool", "any":
 				t := tyOf(v)
 				pv, vt = t.px(), t.text()
@@ -142,6 +145,11 @@ func execTParam(c px.Context, args []sx.Sexp) core.Result {
 	res := core.Result{Out: out, Pred: "ok", NonTrivial: pv != nil, Tags: []string{"tparam"}}
 	if len(fails) > 0 {
 		res.Pred = "FAIL " + fails[0].class + " " + fails[0].detail
+		if pv == px.Undef && fails[0].class != "fault" {
+			// known finding C17-tparam-explicit-undef: the parameter's attribute given its default (undef) BY NAME binds the type
+			// parameter to undef (the instance gets the type T[p => undef]); given positionally it does not
+			res.Pred = "FAIL tparam-explicit-undef [" + fails[0].class + "] " + fails[0].detail
+		}
 	}
 	return res
 }
@@ -150,9 +158,9 @@ func genTParam(g *core.G) {
 	g.Emit("@msg eq")
 	g.Emit("@msg ser")
 	vals := map[string][]string{
-		"int":  {"-", "(i 0)", "(i 4)", "(s x78)"},
-		"str":  {"-", "(s x)", "(s x78)", "(i 1)"},
-		"type": {"-", "int", "str", "bool", "any", "(i 1)"},
+		"int":  {"-", "u", "(i 0)", "(i 4)", "(s x78)"},
+		"str":  {"-", "u", "(s x)", "(s x78)", "(i 1)"},
+		"type": {"-", "u", "int", "str", "bool", "any", "(i 1)"},
 	}
 	for _, k := range []string{"int", "str", "type"} {
 		for _, v := range vals[k] {
